@@ -286,8 +286,10 @@ def write_evidence(mod: Any, ctx: Ctx, wall: float, n_unlisted: int, n_known: in
             jsonschema.validate(ev, json.load(f))
     except ImportError:
         pass
-    os.makedirs(os.path.join(VERIF, "evidence"), exist_ok=True)
-    path = os.path.join(VERIF, "evidence", f"{ctx.prop}.json")
+    # Runs against a tree other than /repo (a seeded change in a scratch worktree) must not overwrite the evidence of /repo.
+    edir = os.environ.get("VERIF_EVIDENCE_DIR") or os.path.join(VERIF, "evidence")
+    os.makedirs(edir, exist_ok=True)
+    path = os.path.join(edir, f"{ctx.prop}.json")
     tmp = path + ".tmp"
     with open(tmp, "w") as f:
         json.dump(ev, f, indent=1, default=repr)
